@@ -23,7 +23,7 @@ func init() {
 				"!developmentMode, storing the template just returned by the loader path under the path that was looked up; (C16.nocache) the cache flag is threaded unchanged " +
 				"(every call passes its own flag parameter inside the parse cycle; Set.Parse passes constant false); (C16.ext) the extension list is only ever ranged over " +
 				"(forward), each candidate is <path>+<extension>, the first hit returns, and Open/parse receive the string that Exists accepted; (C16.errs) errors of Open, ReadAll, " +
-				"parse and the lookup helpers are returned, never dropped or replaced by nil. (C16.put, continued) the key passed to Cache.Put is one a later lookup of the same name tries (the stored template's Name, or the form of a Cache.Get key). (C16.ext, continued) every Loader.Exists / Cache.Get of the Set lies inside a loop over the configured extensions. (C16.probe, continued) outside development mode no path of getTemplate reaches the loader without having asked the cache, whatever the caller's cache flag.",
+				"parse and the lookup helpers are returned, never dropped or replaced by nil. (C16.put, continued) the key passed to Cache.Put is one a later lookup of the same name tries (the stored template's Name, or the form of a Cache.Get key). (C16.ext, continued) every Loader.Exists / Cache.Get of the Set lies inside a loop over the configured extensions. (C16.probe, continued) outside development mode no path of getTemplate reaches the loader without having asked the cache, whatever the caller's cache flag. (C16.state) the same rule as C10.state: on the lookup paths nothing but the Cache is written that outlives the call, so neither failed lookups nor anything else is remembered outside it. (C16.ext, continued) the extension list is stored into the Set as it was given, element for element.",
 			NotDecided:  "what custom Cache/Loader implementations do; identity of templates requested under different spellings of one file (keys are requested paths); atomicity under concurrency (C11); the default extension list.",
 			Assumptions: []string{"a Cache returns what was Put under the same key (contract of the Cache interface)"},
 			Trusted:     commonTrusted,
@@ -209,6 +209,7 @@ func runC16(c *an.Ctx) {
 
 	// ---------------------------------------------------------------- C16.ext
 	r.extensions(c)
+	stateRule(c, "C16.state")
 
 	// ---------------------------------------------------------------- C16.errs
 	nErr := 0
@@ -622,9 +623,18 @@ func (c16) extensions(c *an.Ctx) {
 					return true
 				}
 			case *ast.AssignStmt:
-				for _, l := range ps.Lhs {
+				for i, l := range ps.Lhs {
 					if l == ast.Expr(sel) {
-						return true // option / constructor store
+						// option / constructor store: the list is taken over as it was given
+						if len(ps.Rhs) == len(ps.Lhs) {
+							key := f.Name + "/stored-as-given"
+							if why := c16asGiven(p, f, ps.Rhs[i], 0); why != "" {
+								c.Bad("C16.ext", key, ps.Pos(), nil, "%s stores a list into Set.extensions that is not the configured one, element for element (%s): candidate names are no longer <name>+<configured extension> in the configured order", f.Name, why)
+							} else {
+								c.OK("C16.ext", key, ps.Pos(), "the configured extension list is stored as given")
+							}
+						}
+						return true
 					}
 				}
 			case *ast.KeyValueExpr:
@@ -808,4 +818,147 @@ func (c16) extLoop(c *an.Ctx, f *an.Fn, rs *ast.RangeStmt) {
 	}
 	_ = trailBad
 	c.Check(first, "C16.ext", key+"/first-wins", rs.Pos(), "the loop returns at the first hit", "after a candidate was found the loop can go on to probe a later extension: a later extension can win (e.g. when loading the first existing one fails)")
+}
+
+// c16asGiven returns "" when e is the caller's list unchanged: a parameter, a literal of constants, or a local
+// copy of such a list whose elements are only ever the source's elements themselves.
+func c16asGiven(p *an.Prog, f *an.Fn, e ast.Expr, depth int) string {
+	info := f.Info()
+	e = an.Unparen(e)
+	if depth > 3 {
+		return "cannot be followed"
+	}
+	switch x := e.(type) {
+	case *ast.CompositeLit:
+		for _, el := range x.Elts {
+			if tv, ok := info.Types[el]; !ok || tv.Value == nil {
+				return "a literal with a computed element"
+			}
+		}
+		return ""
+	case *ast.SliceExpr:
+		if x.Low == nil && x.High == nil {
+			return c16asGiven(p, f, x.X, depth+1)
+		}
+		return "a sub-slice"
+	case *ast.CallExpr:
+		if an.CalleeName(info, x) == "builtin.append" && len(x.Args) == 2 && x.Ellipsis.IsValid() {
+			// append([]string(nil), src...) / append(make([]string, 0, n), src...)
+			if why := c16emptyList(info, x.Args[0]); why != "" {
+				return why
+			}
+			return c16asGiven(p, f, x.Args[1], depth+1)
+		}
+		return "the result of " + an.Str(x.Fun)
+	case *ast.Ident:
+		obj := an.ObjOf(info, x)
+		owner := p.OwnerFn(x.Pos())
+		if owner == nil {
+			owner = f
+		}
+		for g := owner; g != nil; g = g.Parent {
+			if _, isParam := an.IsParam(g, obj); isParam {
+				if len(an.LocalDefs(g, obj)) > 0 {
+					return "the parameter is re-assigned"
+				}
+				return ""
+			}
+		}
+		// a local list: made empty / with a length, filled only with the source's own elements
+		defs := an.LocalDefs(f.Root(), obj)
+		if len(defs) == 0 {
+			return "no definition"
+		}
+		var src types.Object
+		for _, d := range defs {
+			if d == nil {
+				return "a definition that is not an expression"
+			}
+			d = an.Unparen(d)
+			if call, ok := d.(*ast.CallExpr); ok && an.CalleeName(info, call) == "builtin.make" {
+				continue
+			}
+			if why := c16asGiven(p, f, d, depth+1); why != "" {
+				return why
+			}
+		}
+		// element stores and copy()
+		why := ""
+		an.InspectOwn(f.Root(), func(n ast.Node) bool {
+			switch s := n.(type) {
+			case *ast.AssignStmt:
+				for i, l := range s.Lhs {
+					ix, ok := an.Unparen(l).(*ast.IndexExpr)
+					if !ok {
+						continue
+					}
+					if id, ok := an.Unparen(ix.X).(*ast.Ident); !ok || an.ObjOf(info, id) != obj {
+						continue
+					}
+					if len(s.Rhs) != len(s.Lhs) {
+						why = "an element is stored from a multi-value expression"
+						continue
+					}
+					// the element must be the range value of a loop over a given list, never re-assigned
+					rid, ok := an.Unparen(s.Rhs[i]).(*ast.Ident)
+					if !ok {
+						why = "the element " + an.Str(s.Rhs[i]) + " is computed"
+						continue
+					}
+					robj := an.ObjOf(info, rid)
+					fromRange := false
+					an.InspectOwn(f.Root(), func(m ast.Node) bool {
+						if rs, ok := m.(*ast.RangeStmt); ok {
+							if v, ok := rs.Value.(*ast.Ident); ok && an.ObjOf(info, v) == robj && c16asGiven(p, f, rs.X, depth+1) == "" {
+								fromRange = true
+							}
+						}
+						return true
+					})
+					nDefs := 0
+					for range an.LocalDefs(f.Root(), robj) {
+						nDefs++
+					}
+					if !fromRange || nDefs > 1 {
+						why = "the element " + rid.Name + " is not (only) an element of the configured list"
+					}
+				}
+			case *ast.CallExpr:
+				if an.CalleeName(info, s) == "builtin.copy" && len(s.Args) == 2 {
+					if id, ok := an.Unparen(s.Args[0]).(*ast.Ident); ok && an.ObjOf(info, id) == obj {
+						if w := c16asGiven(p, f, s.Args[1], depth+1); w != "" {
+							why = w
+						}
+					}
+				}
+			}
+			return true
+		})
+		_ = src
+		return why
+	}
+	return "the expression " + an.Str(e)
+}
+
+func c16emptyList(info *types.Info, e ast.Expr) string {
+	e = an.Unparen(e)
+	if call, ok := e.(*ast.CallExpr); ok {
+		if tv, ok := info.Types[an.Unparen(call.Fun)]; ok && tv.IsType() && len(call.Args) == 1 {
+			if atv, ok := info.Types[call.Args[0]]; ok && atv.IsNil() {
+				return ""
+			}
+		}
+		if an.CalleeName(info, call) == "builtin.make" && len(call.Args) >= 2 {
+			if tv, ok := info.Types[call.Args[1]]; ok && tv.Value != nil && tv.Value.ExactString() == "0" {
+				return ""
+			}
+		}
+	}
+	if cl, ok := e.(*ast.CompositeLit); ok && len(cl.Elts) == 0 {
+		return ""
+	}
+	if tv, ok := info.Types[e]; ok && tv.IsNil() {
+		return ""
+	}
+	return "appended to a list that is not empty"
 }
